@@ -3,6 +3,7 @@ bound to the real Boost.MPI / OpenMPI stack by mpiexec conformance runs."""
 import os
 import subprocess
 import vlib
+from checks._exact import FAMS_SYM
 
 VMPI = os.path.join(vlib.VERIF, "shim", "vmpi")
 VTBB = os.path.join(vlib.VERIF, "shim", "vtbb")
@@ -72,6 +73,9 @@ def run(tier):
                  [["--n", 5, "--alpha", "A2", "--P", "3,4,5", "--bound", 0, "--min-dim", 5, "--outcome-bound", 0, "--variants", "signed_mpi,iso_tbb_mpi"]]),
                 ("G(5) with 5..7 edges x PM2 (every assignment of the distinct weights 2^0..2^(m-1): unique optima, no ties that could mask a lost candidate), mcb_sva_signed_mpi, P in {2,3}, default schedule",
                  [["--n", 5, "--alpha", "PM2", "--min-m", 5, "--max-m", 7, "--P", "2,3", "--bound", 0, "--variants", "signed_mpi", "--outcome-bound", 0]]),
+                ("symmetric families under 60 renumberings x U, P in {2,3}; under 20 renumberings x M2, P in {2,3,4}, at most one non-default reduce outcome",
+                 [["--families", FAMS_SYM, "--relabel", 60, "--alpha", "U", "--P", "2,3", "--bound", 0, "--outcome-bound", 0], ["--families", FAMS_SYM, "--relabel", 20, "--alpha", "M2", "--P", "2,3,4", "--bound", 0, "--outcome-bound", 1]]),
+                ("G(4) x A2 plus one more component = a single edge weighing 2^60, P in {2,3}, bound 1", [["--n", 4, "--alpha", "A2", "--plus-heavy-k2", "--P", "2,3", "--bound", 1]]),
                 ("K6 x A2 (32768 weightings; dense branch |S| >= n, ranks with empty slices), mcb_sva_signed_mpi, P=4, default outcome",
                  [["--families", "K:6", "--alpha", "A2", "--P", "4", "--variants", "signed_mpi", "--bound", 0, "--wchunks", 64, "--outcome-bound", 0]])]
     else:
